@@ -255,7 +255,7 @@ macro "close_k" : tactic => `(tactic|
 set_option hygiene false in
 macro "destruct_st" s:ident : tactic => `(tactic|
   rcases $s:ident with ⟨T, outcomes, now, queue, unfinished, event, pc, gens, inputs, pendingItems, getting, ninv, joiners,
-    flaggers, outs, submitted, delivered, retLog, tie, daemonEnded, shutdownPhase⟩)
+    flaggers, outs, submitted, delivered, subTimes, lastSub, retLog, tie, daemonEnded, shutdownPhase⟩)
 
 set_option maxHeartbeats 4000000 in
 theorem zstep_idle_K (s : St) (p : Producer) (rest : List Producer) (h : K s) (hpc : s.pc = Pc.idle)
